@@ -1114,8 +1114,8 @@ def op_evolve(w, s):
         if method == "tdrk4" and int(m) >= max(src.bond_dims_exact[1:] + [1]):
             bound = (2 if imag else 1) * 6.0 * x ** 5 / 120 + 2e-9
         elif method == "ps" and full:
-            # away from the exactness condition: second-order splitting; the constant grows with the number of split terms (nodes)
-            cps = max(PS_ORDER_CONST, 0.15 * len(src.node_list))
+            # away from the exactness condition: second-order (symmetric) splitting, local error O(x^3)
+            cps = PS_ORDER_CONST
             bound = 1e-8 if split_exact else cps * x ** 3 + 1e-8
             key += ":exact" if split_exact else ":order"
         elif method == "ps2" and full and int(m) >= max(src.bond_dims[1:]):
@@ -1135,6 +1135,38 @@ def op_evolve(w, s):
             if err > bound and not CALIBRATE:
                 raise V({"C12"}, "C12.layer2", f"TTNS.evolve {key} on tree {w.tree_specs[e.tid].get('ctor')} x={x:.3g}: error vs exact propagator {err:.3e} > {bound:.3e}",
                         sig=f"C12.layer2:{key}")
+    if method == "ps" and full and not split_exact and 0.02 <= x <= 0.25 and err > 2e-6 and float(np.linalg.norm(t_before)) > 0:
+        # ---------- order probe: the scheme is a SYMMETRIC composition (forward half sweep, adjoint half sweep), so the one-step
+        # error is O(tau^3): halving the step divides it by about 8 (a first-order composition gives about 4).  Two halvings are
+        # taken from the same (unchanged) input; judged only above the rounding / Krylov floor and only when BOTH ratios agree.
+        errs = [err]
+        try:
+            for f in (0.5, 0.25):
+                r2 = src.evolve(eh.obj, dt * f, normalize=s.get("normalize", True))
+                with np.errstate(all="ignore"):
+                    u2 = scipy.linalg.expm(-1j * dt * f * H) @ t_before
+                if s.get("normalize", True):
+                    ex2 = u2 / float(np.linalg.norm(u2)) * ((coeff / abs(coeff)) if imag else coeff)
+                else:
+                    ex2 = u2 * coeff
+                g2 = w.dense_of(Entry("ttns", r2, np.zeros(1), e.tid))
+                errs.append(float(np.linalg.norm(g2 - ex2)) / max(float(np.linalg.norm(ex2)), 1e-300))
+        except (Violation, HarnessError):
+            raise
+        except Exception as ex:
+            raise V({"C12"}, "C12.evolve.raised", f"TTNS.evolve({method}, dt={dt}) repeated with a shorter step: {type(ex).__name__}: {ex}",
+                    sig=f"C12.evolve.raised:{method}:{'imag' if imag else 'real'}:{type(ex).__name__}")
+        # (the O(tau^3) local error is the asymptotic regime tau*|H| << smallest Schmidt weight: for larger steps a badly conditioned
+        # direction contributes a term ~ sigma_min * x^2 - measured 6.5e-4 x^2 at sigma_min/sigma_max = 0.009 - so the probe is
+        # restricted to states whose smallest kept Schmidt ratio is at least the largest step)
+        if errs[2] > 3e-7 and _min_schmidt_ratio(w, e) >= x:
+            r1, r2_ = errs[0] / errs[1], errs[1] / errs[2]
+            w.stats.probes["tree_ps_order_probe"] += 1
+            w.stats.ratio("C12.ps_order_probe", 5.0, max(r1, r2_))
+            if max(r1, r2_) < 5.0 and not CALIBRATE:
+                raise V({"C12"}, "C12.ps_order", f"TTNS.evolve ps ({'imaginary' if imag else 'real'} time) on tree {w.tree_specs[e.tid].get('ctor')}: one-step errors "
+                        f"{errs[0]:.3e}, {errs[1]:.3e}, {errs[2]:.3e} for tau, tau/2, tau/4 (x={x:.3g}) fall by {r1:.2f} and {r2_:.2f} per halving: "
+                        f"first-order behaviour, the scheme is a second-order symmetric splitting (about 8)", sig=f"C12.ps_order:{'imag' if imag else 'real'}")
     if method == "ps" and not imag and not s.get("normalize", True):
         t_after = w.tens(w.h[s["out"]])
         n0, n1 = float(np.linalg.norm(t_before)), float(np.linalg.norm(t_after))
@@ -1708,6 +1740,101 @@ def p_evolve(w, rnd):
              "per_bond": method in ("ps2", "tdrk4") and rnd.random() < 0.4,
              "out": w.new_handle()}
         return s
+    return None
+
+
+def nocentre_candidates(w):
+    """(tid, qntot, cap) for which a state with every bond at its sector cap has NO exactness centre on a branching tree: only the
+    ORDER of the splitting integrator holds there (simlab/ref/exactness.py).  Computed from the basis trees alone, cached per world."""
+    got = getattr(w, "_nocentre", None)
+    if got is not None:
+        return got
+    from simlab.ref import exactness
+    out = []
+    if not w.aux:
+        qs = int(w.spec["qn_size"])
+        site_q = [np.asarray(b.sigmaqn).reshape(b.nbas, qs) for b in w.basis_objs]
+        secs = [tuple(int(v) for v in q) for q in gm.reachable_sectors(w.model)][:24]
+        for tid in w.state_tids():
+            nodes = list(w.trees[tid].node_list)
+            if len(nodes) < 3 or not any(len(n.children) >= 2 for n in nodes):
+                continue
+            idx = {id(n): i for i, n in enumerate(nodes)}
+            sides = []
+            for node in nodes:
+                if node.parent is None:
+                    continue
+                side, sub, stack = set(), [], [node]
+                while stack:
+                    n = stack.pop()
+                    side.add(idx[id(n)])
+                    sub.extend(w.ref_index[id(b)] for b in n.basis_sets if id(b) in w.ref_index)
+                    stack.extend(n.children)
+                rest = [k for k in range(w.nref) if k not in sub]
+                sides.append((side, exactness.counts([site_q[k] for k in sub], qs), exactness.counts([site_q[k] for k in rest], qs),
+                              [site_q[k] for k in sorted(sub)], [site_q[k] for k in rest]))
+            for q in secs:
+                bonds, cap = [], 0
+                for side, fa, fb, rows_a, rows_b in sides:
+                    labels = []
+                    for qa, na in sorted(fa.items()):
+                        nb = fb.get(tuple(int(t - a) for t, a in zip(q, qa)), 0)
+                        labels += [list(qa)] * min(na, nb)
+                    if not labels:
+                        bonds = None
+                        break
+                    cap = max(cap, len(labels))
+                    bonds.append((side, np.asarray(labels), rows_a, rows_b))
+                if bonds and 2 <= cap <= 40 and int(dense.sector_mask(w.model, np.asarray(q)).sum()) >= 4:
+                    full, centre = exactness.splitting_exact(len(nodes), bonds, q)
+                    if full and not centre:
+                        out.append((tid, q, cap))
+    w._nocentre = out
+    return out
+
+
+@prop("evolve_order")
+def p_evolve_order(w, rnd):
+    """scenario: one-site projector splitting on a branching tree, state at the sector caps, away from the exactness condition
+    (steers the population to where the scheme's ORDER is what is being decided)"""
+    cands = nocentre_candidates(w)
+    if not cands:
+        return None
+    tid, q, cap = rnd.choice(cands)
+    st = w.handles("ttns", pred=lambda e: e.tid == tid and tuple(int(v) for v in np.asarray(e.obj.qntot).reshape(-1)) == q and nonzero(e)
+                   and max(e.obj.bond_dims) >= cap and not e.meta.get("evolved"))
+    if not st:
+        return {"op": "ttns_random", "tid": tid, "qntot": list(q), "m": cap, "percent": 1.0, "out": w.new_handle()}
+    a = rnd.choice(st)
+    e = w.h[a]
+    mask = dense.sector_mask(w.model, np.asarray(q))
+    hams = w.handles("ttno", pred=lambda eh: eh.meta.get("hermitian") and eh.tid == tid)
+    rnd.shuffle(hams)
+    for hh in hams:
+        H = w.h[hh].shadow
+        hs = H[np.ix_(mask, mask)]
+        hn = float(np.linalg.norm(hs, 2)) if mask.any() else 0.0
+        if hn < 1e-3 or float(np.linalg.norm(hs - np.diag(np.diag(hs)))) < 0.2 * hn:
+            continue          # (operators diagonal in the product basis are propagated exactly by every scheme)
+        x = 10 ** rnd.uniform(np.log10(0.03), np.log10(0.25))
+        tau = round(x / hn, 6)
+        imag = rnd.random() < 0.4
+        return {"op": "evolve", "a": a, "h": hh, "method": "ps", "dt": [0.0, -tau] if imag else [tau * rnd.choice([1, 1, -1]), 0.0],
+                "m": 64, "normalize": rnd.random() < 0.5, "prep": True, "per_bond": False, "out": w.new_handle()}
+    zero = [0] * w.spec["qn_size"]
+    for _ in range(12):
+        terms = _real_hamiltonian(rnd, w.spec) if rnd.random() < 0.5 else _real_terms(rnd, w.spec, charge=zero)
+        if not terms:
+            continue
+        try:
+            hf = dense.dense_op(w.model, [gm.build_op(t) for t in terms])
+        except Exception:
+            continue
+        if float(np.linalg.norm(hf - hf.conj().T)) > 1e-12 * max(float(np.linalg.norm(hf)), 1e-300):
+            continue
+        hs = hf[np.ix_(mask, mask)]
+        if float(np.linalg.norm(hs - np.diag(np.diag(hs)))) >= 0.2 * max(float(np.linalg.norm(hs, 2)), 1e-300):
+            return {"op": "ttno", "tid": tid, "terms": terms, "algo": rnd.choice(["Hopcroft-Karp", "qr", "Hungarian"]), "vs_mpo": False, "out": w.new_handle()}
     return None
 
 
